@@ -86,7 +86,12 @@ def apply_history_step(model, step):
     if step == "reload":
         path = os.path.join(subdir("reload"), "m-%d.pkl" % os.getpid())
         model.save(path)
-        m2 = type(model)()          # default arguments: another metric, no pre-computed distances
+        # the receiver is constructed with other arguments than the saved model: default ones, or another metric whose
+        # values live on a different scale (whatever it was built with, load must replace it completely)
+        nodes = getattr(getattr(model, "subgraph", None), "nodes", None) or []
+        pick = (7 * len(nodes) + sum(int(nd.pred) + 2 for nd in nodes)) % 6          # a function of the fitted state (replayable)
+        other = ["log_squared_euclidean", "manhattan", "canberra", "chebyshev", "gaussian", "squared_euclidean"][pick]
+        m2 = type(model)() if other == "log_squared_euclidean" else type(model)(distance=other)
         m2.load(path)
         os.remove(path)
         return m2
